@@ -588,7 +588,8 @@ class SweepCapture:
 
         def swap(self_):
             ev = {'chain': self_, 'iteration': self_.iteration, 'lastclear': self_.lastclear,
-                  'before': snap(self_), 'stored': {}}
+                  'before': snap(self_), 'stored': {},
+                  'ladder': [float(b) for b in self_.betas], 'level_betas': [float(l.beta) for l in self_.chains]}
             cap._cur = ev
             try:
                 r = cap._orig_swap(self_)
@@ -623,6 +624,34 @@ def _state_equal(params, a, b):
     if ok and a['active'] is not None:
         ok = bool((a['active'] == b['active']).all())
     return ok
+
+
+def sweep_ar_mismatch(ev, rtol=1e-9):
+    """Replay of one captured sweep: with the ladder as it was when the sweep started and the
+    log-likelihoods the levels held, the acceptance ratio of every adjacent pair, hot to cold, carrying
+    the state that is pushed down (decisions read off the stored swap_index).  Returns None or text."""
+    idx = ev['stored'].get('swap_index', (None, None))[1]
+    ars = ev['stored'].get('ars', (None, None))[1]
+    if idx is None or ars is None:
+        return None
+    n = len(ev['before'])
+    if sorted(int(x) for x in idx) != list(range(n)) or len(ars) != n - 1:
+        return None
+    logl = [float(b['stats']['logl']) for b in ev['before']]
+    for name in ('ladder', 'level_betas'):
+        betas = ev[name]
+        carry = n - 1
+        for tk in range(n - 1, 0, -1):
+            tj = tk - 1
+            logar = (betas[tk] - betas[tj]) * (logl[tj] - logl[carry])
+            want = 1.0 if logar > 0 else math.exp(logar)
+            got = float(ars[tj])
+            if abs(got - want) > rtol * max(abs(want), 1e-300) and abs(logar) > 2.0 ** -40:
+                return ('pair (%d,%d): recorded acceptance ratio %r, but betas %s (%s at the time of the sweep) and '
+                        'log-likelihoods %s give %r' % (tk, tj, got, betas, name, logl, want))
+            if int(idx[tk]) != tj:        # refused: the carried state stays in slot tk
+                carry = tj
+    return None
 
 
 def sweep_findings(case, max_findings=4):
@@ -684,6 +713,10 @@ def sweep_findings(case, max_findings=4):
                         ars = e['stored'].get('ars', (None, None))[1]
                         if ars is None or len(ars) != n - 1 or not all(0.0 <= float(a) <= 1.0 for a in ars):
                             bad('ars-row', 'acceptance-ratio row %r is not n-1 probabilities' % (ars,), None)
+                        mm = sweep_ar_mismatch(e)
+                        if mm:
+                            bad('swap-ratio-not-from-current-ladder', 'a sweep was not decided with the current ladder and '
+                                'log-likelihoods: ' + mm, {'iteration': e['iteration']})
                         logs[ci].append(([int(x) for x in idx], None if ars is None else [float(a) for a in ars]))
             elif op[0] == 'clear':
                 sampler.clear()
@@ -929,7 +962,14 @@ def ladder_findings(seed, full=False, max_findings=4):
             if list(f) != want:
                 bad('not-sorted', 'betas given as %s are held as %s' % (list(given), list(f)), cfg)
         for it in range(1, (60 if full else 25) + 1):
-            smp.run(1)
+            with SweepCapture() as cap:
+                smp.run(1)
+            for e in cap.sweeps:
+                nchecks += 1
+                mm = sweep_ar_mismatch(e)
+                if mm:
+                    bad('swap-ratio-not-from-current-ladder', 'iteration %d: a sweep was not decided with the ladder the '
+                        'chain holds: %s' % (it, mm), cfg)
             rep = smp.betas
             for ci, ch in enumerate(smp.chains):
                 nchecks += 1
